@@ -24,13 +24,26 @@ def expand_saved_queries(zdir: PathLike, qstring: str) -> Optional[str]:
                 query_name=qname,
             )
             return None
-        new_qstring = new_qstring.replace(f"{{{qname}}}", sub_where_filter)
+        new_qstring = new_qstring.replace(
+            f"{{{qname}}}", _parenthesize(sub_where_filter)
+        )
     _LOGGER.debug(
         "All saved query references have been expanded",
         original_query=qstring,
         expanded_query=new_qstring,
     )
     return new_qstring
+
+
+def _parenthesize(where_filter: str) -> str:
+    """Wraps {where_filter} in parentheses if it contains alternatives.
+
+    A saved WHERE clause is spliced into the middle of another filter, where
+    juxtaposition (AND) binds tighter than the '|' (OR) operator.
+    """
+    if "|" in where_filter.split(" "):
+        return f"({where_filter})"
+    return where_filter
 
 
 def _get_saved_query_names(qstring: str) -> set[str]:
@@ -91,6 +104,6 @@ def _get_saved_where_filter(zdir: PathLike, query_name: str) -> Optional[str]:
             )
             return None
         where_filter = where_filter.replace(
-            f"{{{sub_query_name}}}", sub_where_filter
+            f"{{{sub_query_name}}}", _parenthesize(sub_where_filter)
         )
     return where_filter
